@@ -64,7 +64,8 @@ func ZZH8SourceMap() {
 	if pretty {
 		semi = sym.Bool("semi")
 	}
-	c := newCompiler(pretty, semi, 2).WithSourceMap()
+	indent := []int{2, 0, -1, 4}[sym.Choose("indent", sym.Param("indents", 1))]
+	c := newCompiler(pretty, semi, indent).WithSourceMap()
 	res := c.Compile(prog)
 	code := res.Code
 	sym.Observe("code", code, pretty, semi)
